@@ -214,9 +214,9 @@ class Gfa(Lines,GraphOperations,RGFA):
       raise gfapy.FormatError(
         "The content of file {} is not valid text\n".format(filename)+
         "Error: {}".format(err))
-    if self._line_queue:
-      self._version = self._version_guess
-      self.process_line_queue()
+    # (as when a Gfa is created from a string or a list: if no line decided
+    #  the version, it is the one guessed from the lines read)
+    self.process_line_queue()
     if self._progress:
       self._progress_log_end("read_file")
     if self._vlevel >= 1:
